@@ -10,7 +10,7 @@ From Mage Require Import Base.Strs Model.Classify Proof.Classify_facts.
 (* the property's sentence:
      valid_sig pk d  :=  exported (fname d)                                      exported
                       /\ tparams d = false                                        not generic
-                      /\ recv_ok pk d        no receiver, or a receiver of an exported type declared as mg.Namespace
+                      /\ recv_ok pk d        no receiver, or a receiver of an exported, non-generic type declared as mg.Namespace
                       /\ params_ok (params d)   optional leading single context.Context, then only string/int/bool/time.Duration
                       /\ res_ok (res d)         nothing or a single error
    is_target pk d := some Function collected by setNamespaces/setFuncs was made from d *)
@@ -39,14 +39,20 @@ Proof. exact arity_before_repair_refuted. Qed.
 Theorem C06_listed_runnable : forall f, lower (lowerFirst (targetName f)) = dispatch_key f.
 Proof. exact listed_runnable. Qed.
 
-(* `var Default = X` (a spec of its own, after specs of one name each) makes X the default iff X is a target *)
-Theorem C06_default_declared : forall pre post s1 spec s2 more e rest fs,
+(* the default target, unrestricted: wherever Default is first declared - any var declaration, any
+   spec of it, any position among the names of that spec - the default is the function named by
+   the value at Default's position in that spec (own_value: Go's pairing, one value per name),
+   iff getFunction resolves it to a target; otherwise there is none *)
+Theorem C06_default_declared : forall pk pre s1 spec s2 post n1 n2,
+  vars pk = pre ++ (s1 ++ spec :: s2) :: post ->
   (forall v, In v pre -> ~ In "Default" (value_names v)) ->
-  (forall s, In s s1 -> one_other_name s) ->
-  vnames spec = "Default" :: more -> vvalues spec = VRef e :: rest ->
-  setDefault_in (pre ++ (s1 ++ spec :: s2) :: post) fs =
-    match getFunction e fs with Some f => DSome f | None => DNone end.
-Proof. exact setDefault_plain. Qed.
+  (forall s, In s s1 -> ~ In "Default" (vnames s)) ->
+  vnames spec = n1 ++ "Default" :: n2 -> ~ In "Default" n1 ->
+  setDefault pk = dflt_of (own_value spec (List.length n1)) (funcs pk).
+Proof. exact setDefault_declared. Qed.
+
+Theorem C06_default_no_panic : forall vs fs, setDefault_new vs fs <> DPanic.
+Proof. exact setDefault_no_panic. Qed.
 
 Theorem C06_default_resolves : forall e fs f, getFunction e fs = Some f ->
   In f fs /\ match e with
@@ -62,16 +68,25 @@ Theorem C06_default_marked : forall def f,
   (fst (list_entry def f) = lowerFirst (targetName f) <-> ~ (f_name f = f_name def /\ f_recv f = f_recv def)).
 Proof. exact default_marked. Qed.
 
-(* the full statement "whatever function the Default declaration names is the default" is FALSE of
-   the code: setDefault indexes the specs of a var declaration with an index into its flattened
-   names.  var ( A, B = 1, 2; Default = Build; Q = Other ) makes Other the default;
-   var X, Default = Other, Build panics. *)
-Theorem C06_default_wrong_spec_refuted :
+(* before 3720af9 ([setDefault_ false]) the statement was false: setDefault indexed the specs of a
+   var declaration with an index into its flattened names.
+   var ( A, B = 1, 2; Default = Build; Q = Other ) made Other the default;
+   var X, Default = Other, Build panicked.  The repaired code answers Build in both. *)
+Theorem C06_default_wrong_spec_before_repair_refuted :
   exists pk v f, In v (vars pk) /\ In (spec1 "Default" (FIdent "Build")) v /\
-                 setDefault pk = DSome f /\ f_name f = "Other".
-Proof. exact default_wrong_spec_refuted. Qed.
-Theorem C06_default_panic_refuted : exists pk, setDefault pk = DPanic.
-Proof. exact default_panic_refuted. Qed.
+                 setDefault_ false pk = DSome f /\ f_name f = "Other" /\
+                 exists g, setDefault pk = DSome g /\ f_name g = "Build".
+Proof. exact default_wrong_spec_before_repair_refuted. Qed.
+Theorem C06_default_panic_before_repair_refuted :
+  exists pk, setDefault_ false pk = DPanic /\ exists g, setDefault pk = DSome g /\ f_name g = "Build".
+Proof. exact default_panic_before_repair_refuted. Qed.
+
+(* before f02d247 ([targets_ false]) the method of a generic namespace type was a target whose
+   generated call (&NS{}).Build() names a generic type without instantiating it *)
+Theorem C06_generic_namespace_before_repair_refuted :
+  exists pk d f t, In (d, f) (targets_ false pk) /\ In t (types pk) /\ tgeneric t = true /\
+                   c_recv (exec_call f) = Some (tname t) /\ targets pk = [].
+Proof. exact generic_namespace_before_repair_refuted. Qed.
 
 (* -h: the usage line lists the declared parameter names in order (arg<i> for an unnamed parameter
    in position i), the comment is the doc comment on one line, the key is the lower-cased name;
@@ -95,8 +110,10 @@ Print Assumptions C06_listed_runnable.
 Print Assumptions C06_default_declared.
 Print Assumptions C06_default_resolves.
 Print Assumptions C06_default_marked.
-Print Assumptions C06_default_wrong_spec_refuted.
-Print Assumptions C06_default_panic_refuted.
+Print Assumptions C06_default_no_panic.
+Print Assumptions C06_default_wrong_spec_before_repair_refuted.
+Print Assumptions C06_default_panic_before_repair_refuted.
+Print Assumptions C06_generic_namespace_before_repair_refuted.
 Print Assumptions C06_help.
 Print Assumptions C06_help_aliases.
 
